@@ -170,6 +170,30 @@ func (e *eng) Gen(r *hx.Rand, n int, tier string, prop string, out *hx.Out) {
 				names = append(names, "r2")
 			}
 		}
+		// internal transactions of the implementation as actors: ChangeIterator.Close and the graveyard worker
+		if g.Chance(25) {
+			var gt []int
+			for t := 0; t < ntab; t++ {
+				if g.Chance(60) {
+					gt = append(gt, t)
+				}
+			}
+			if len(gt) == 0 {
+				gt = []int{g.Intn(ntab)}
+			}
+			if g.Chance(50) { // the order the tables are handed to WriteTxn is the worker's (a map iteration)
+				for i, j := 0, len(gt)-1; i < j; i, j = i+1, j-1 {
+					gt[i], gt[j] = gt[j], gt[i]
+				}
+			}
+			out.P("actor g1 gc %s", joinInts(gt))
+			names = append(names, "g1")
+		}
+		// (declared after the collector's set-up: an iterator that has not been handed a tombstone keeps it)
+		if g.Chance(25) {
+			out.P("actor c1 close %d", g.Intn(ntab))
+			names = append(names, "c1")
+		}
 		// random schedule with stretches of the same actor, watches taken at random moments
 		steps := 20 + g.Intn(40)
 		contend := g.Chance(30)
